@@ -93,6 +93,19 @@ def work(ctx, tier):
         for e in common.pick_entries(rng, entries, 2):
             _one(ctx, sc, e, stats)
         ctx.inc("callback_fault_scenarios")
+    # a backoff-phase callback gives up with AbortRetryError: execute() may let it propagate or report ABORTED, but never an outcome
+    # that miscounts the invocations
+    m3 = (500 if tier == "quick" else 12000) // ctx.nshards
+    for k in range(m3):
+        sc = gen.rand_scenario(rng, p_special=0.0, p_budget=0.2, p_handler=0.5, p_abort=0.0, p_breaker=0.3)
+        sc["place"]["hooks"] = rng.choice(["call", "policy", "both"])
+        sc["fault"] = {"kind": "cb", "cb": rng.choice(["sleeper", "handler", "strategy", "aend", "sleeper"]), "at": rng.choice([0, 0, 1]), "exc": "AbortRetryError"}
+        if sc["place"].get("sleeper") == "none":
+            sc["place"]["sleeper"] = "call"
+        pool = [e for e in entries if e.lstrip("a").startswith("policy")] if sc["cfg"].get("breaker") else entries
+        for e in common.pick_entries(rng, pool, 3):
+            _one(ctx, sc, e, stats)
+        ctx.inc("backoff_callback_abort_scenarios")
     # cooperative abort raised by on_attempt_start before attempt k: reported as ABORTED, attempts = invocations so far
     m2 = (500 if tier == "quick" else 12000) // ctx.nshards
     for k in range(m2):
